@@ -3,33 +3,49 @@
 pub enum CasClientError { Other(String), InvalidRange, InvalidArguments, IOError, FileNotFound(MerkleHash) }
 pub type Result<T> = std::result::Result<T, CasClientError>;
 #[verifier::external_body] pub fn vx_abort() ensures false { panic!() }
-// a writer obtained from `OutputProvider::get_writer_at(start)` (a seeked file handle / buffer cursor)
+// ---- the output model (one text, two uses) --------------------------------------------------------------------------------
+// An output (file on disk / shared in-memory buffer) is a byte image `Seq<u8>`.  A writer handle carries three ghost views:
+//   pre()      the image of the output at the moment the handle was obtained
+//   content()  the image after the operations done THROUGH THIS HANDLE so far (other handles' effects compose by `apply_writes`)
+//   pos()      the handle's cursor
+// `write_at(f, o, d)` (reconplan_math.rs) is the positioned write: bytes [o, o+|d|) := d, a gap between |f| and o reads as zero
+// (POSIX sparse-file semantics; `Cursor<Vec<u8>>` zero-fills likewise), an empty write changes nothing.
+// The two predicates below are PROVED for the real providers (`FileProvider::get_writer_at`, `BufferProvider::get_writer_at`,
+// `ThreadSafeBuffer::write`, items (iv) of U-RECONPLAN) and are the contract of the `OutWriter` / `OutputProvider` stubs that the
+// writers' proofs use.
+// get_writer_at(start): the existing image is left UNCHANGED and the cursor stands at `start` — for every start, 0 included
+pub open spec fn writer_at_post(pre: Seq<u8>, content: Seq<u8>, pos: int, start: u64) -> bool { content == pre && pos == start }
+// write_all(buf): one positioned write at the cursor, cursor advances by |buf|
+pub open spec fn write_post(c0: Seq<u8>, p0: int, buf: Seq<u8>, c1: Seq<u8>, p1: int) -> bool { c1 == write_at(c0, p0, buf) && p1 == p0 + buf.len() }
+
+// the `Box<dyn Write + Send>` that `OutputProvider::get_writer_at(start)` returns
 #[verifier::external_body] pub struct OutWriter { _p: () }
 impl OutWriter {
-    pub uninterp spec fn offset(&self) -> int;          // position it was opened at
-    pub uninterp spec fn written(&self) -> Seq<u8>;     // bytes written through it so far, in order
+    pub uninterp spec fn pre(&self) -> Seq<u8>;
+    pub uninterp spec fn content(&self) -> Seq<u8>;
+    pub uninterp spec fn pos(&self) -> int;
     #[verifier::external_body]
     pub fn write_all(&mut self, buf: &[u8]) -> (r: Result<()>)
-        ensures final(self).offset() == old(self).offset(),
-            r is Ok ==> final(self).written() == old(self).written() + buf@,
+        ensures final(self).pre() == old(self).pre(),
+            r is Ok ==> write_post(old(self).content(), old(self).pos(), buf@, final(self).content(), final(self).pos()),
     { unimplemented!() }
     #[verifier::external_body]
     pub fn flush(&mut self) -> (r: Result<()>)
-        ensures final(self).offset() == old(self).offset(), final(self).written() == old(self).written(),
+        ensures final(self).pre() == old(self).pre(), final(self).content() == old(self).content(), final(self).pos() == old(self).pos(),
     { unimplemented!() }
 }
 #[verifier::external_body] pub struct OutputProvider { _p: () }
 impl OutputProvider {
     #[verifier::external_body]
     pub fn get_writer_at(&self, start: u64) -> (r: Result<OutWriter>)
-        ensures r matches Ok(w) ==> w.offset() == start && w.written() == Seq::<u8>::empty(),
+        ensures r matches Ok(w) ==> writer_at_post(w.pre(), w.content(), w.pos(), start),
     { unimplemented!() }
 }
 // R8 epilogue helper: pairs the region's own tail expression with the locals the contract must speak about (no logic)
 pub trait VxWith<W> { type Out; fn vx_with(self, w: W) -> Self::Out; }
-impl VxWith<OutWriter> for Result<u64> {
-    type Out = Result<(u64, OutWriter)>;
-    fn vx_with(self, w: OutWriter) -> (r: Result<(u64, OutWriter)>)
+impl<T, W> VxWith<W> for Result<T> {
+    type Out = Result<(T, W)>;
+    fn vx_with(self, w: W) -> (r: Result<(T, W)>)
         ensures match self { Ok(l) => r matches Ok(p) && p.0 == l && p.1 == w, Err(e) => r is Err },
     { match self { Ok(l) => Ok((l, w)), Err(e) => Err(e) } }
 }
